@@ -1,10 +1,12 @@
 (* C05 — a locked tensordict's structure and storage bindings cannot change.
-   Property theorems only (each closed by a lemma of Proofs/, followed by Print Assumptions, parsed on every run), the
-   refutation witnesses for the defects the unchanged code has, the finite theorem over the translated table, and Examples
-   showing that the hypotheses are met by concrete non-trivial heaps.
-   Model: Model/C05_Heap.v, Model/C05_Lock.v.  Vocabulary: Spec/C05_LockSpec.v.
+   Property theorems only (each closed by a lemma of Proofs/, followed by Print Assumptions, parsed on every run), the finite
+   theorem over the translated table, regression witnesses of the repaired defects, and Examples showing that the hypotheses
+   are met by concrete non-trivial heaps.
+   Model: Model/C05_Heap.v, Model/C05_Lock.v (state after the fix: commits for D7, D8, D51, D53-D54-D60, D55, D56, D61; the
+   refutation theorems of D7, D8, D55, D56 are gone, their witnesses are regression Examples now).  Vocabulary: Spec/C05_LockSpec.v.
    Every theorem is stated for EVERY fuel / fuel policy and every history on which no traversal runs out of fuel
-   (running out of fuel = Python's RecursionError on a cyclic structure; such structures are not trees). *)
+   (running out of fuel = Python's RecursionError on a cyclic structure; such structures are not trees).  No scope restriction
+   on the calls is left: lazy stacks without members, trees locked through memmap_ and exclude(inplace=True) are all covered. *)
 From Coq Require Import List String Bool Arith PeanoNat.
 Import ListNotations.
 From TD Require Import Model.C05_Heap Model.C05_Lock Spec.C05_LockSpec
@@ -14,72 +16,50 @@ Open Scope string_scope.
 (* ---- the lock-graph invariant holds in every reachable state -------------------------------------------------------------
    for all op histories (lock_/unlock_/mutators through any handle/memmap_/share_memory_/pickle round trips/gc of parents),
    raising calls included, from the empty heap or from any state satisfying it *)
-Theorem C05_invariant_step : forall fuel s o s' out, Inv s -> in_scope o -> step fuel s o = Some (s', out) -> Inv s'.
+Theorem C05_invariant_step : forall fuel s o s' out, Inv s -> step fuel s o = Some (s', out) -> Inv s'.
 Proof. exact step_inv. Qed.
 Print Assumptions C05_invariant_step.
 
-Theorem C05_invariant_reachable : forall ff ops s' outs, Forall in_scope ops -> run ff init ops = Some (s', outs) -> Inv s'.
+Theorem C05_invariant_reachable : forall ff ops s' outs, run ff init ops = Some (s', outs) -> Inv s'.
 Proof. exact invariant_reachable. Qed.
 Print Assumptions C05_invariant_reachable.
 
-(* ---- locked_frozen -------------------------------------------------------------------------------------------------------
-   r locked (through lock_: no memmap mark in its tree), live.  Whatever public call is issued on whatever node (guarded class:
-   everything except exclude(inplace=True) = D8 and the documented storage conversions), the structure snapshot of r's tree
-   (kind, keys in order, bound identities of every reachable node) is unchanged, and the tree is still entirely locked --
-   unless the call is a successful unlock_ that unlocked r itself.  Raising calls included. *)
+(* ---- locked_frozen (full statement) ----------------------------------------------------------------------------------------
+   r locked (any way: lock_, constructor, memmap_, share_memory_, unpickling), live.  Whatever public call is issued on whatever
+   node -- every call except the documented storage conversions memmap_ / make_memmap -- the structure snapshot of r's tree
+   (kind, keys in order, bound identities of every reachable node) is unchanged, and the tree is still entirely locked, unless
+   the call is a successful unlock_ that unlocked r itself.  Raising calls included. *)
 Theorem C05_locked_frozen : forall fuel s o s' out r,
-  Inv s -> in_scope o -> step fuel s o = Some (s', out) -> ~ unguarded o ->
-  flag_true (hp s) r = true -> live s r = true -> no_mm (hp s) r ->
+  Inv s -> step fuel s o = Some (s', out) -> ~ unguarded o ->
+  flag_true (hp s) r = true -> live s r = true ->
   tree_unchanged (hp s) (hp s') r /\
-  (tree_locked (hp s') r \/ (exists n, o = OUnlock n /\ out = Done /\ flag_true (hp s') r = false)) /\
-  no_mm (hp s') r.
+  (tree_locked (hp s') r \/ (exists n, o = OUnlock n /\ out = Done /\ flag_true (hp s') r = false)).
 Proof. exact locked_frozen_step. Qed.
 Print Assumptions C05_locked_frozen.
 
 (* over histories: as long as r stays locked and alive, its tree at the end is the tree at the beginning *)
 Theorem C05_locked_frozen_history : forall ff ops s s' outs r,
-  Inv s -> Forall in_scope ops -> Forall (fun o => ~ unguarded o) ops -> run ff s ops = Some (s', outs) ->
-  flag_true (hp s) r = true -> live s r = true -> no_mm (hp s) r -> stays_locked ff s ops r ->
+  Inv s -> Forall (fun o => ~ unguarded o) ops -> run ff s ops = Some (s', outs) ->
+  flag_true (hp s) r = true -> live s r = true -> stays_locked ff s ops r ->
   tree_unchanged (hp s) (hp s') r /\ tree_locked (hp s') r.
 Proof. exact locked_frozen_run. Qed.
 Print Assumptions C05_locked_frozen_history.
 
-(* the full statement (all calls) is false of the unchanged code: exclude(inplace=True) has no guard (D8) *)
-Definition C05_locked_frozen_full_statement : Prop := forall fuel s o s' out r,
-  Inv s -> in_scope o -> step fuel s o = Some (s', out) -> (forall n k, o <> OMakeMemmap n k) -> (forall n, o <> OMemmap n) ->
-  flag_true (hp s) r = true -> live s r = true -> no_mm (hp s) r -> tree_unchanged (hp s) (hp s') r.
-(* witness (replayed against the implementation by the harness): [ONewTd; OSet 0 "a" VLeaf; OLock 0] then OExclude 0 ["a"] *)
-(* (stated under the model switch: once the fix for D8 is in /repo and fixed_D8 := true, the hypothesis is false and the theorem is void) *)
-Theorem C05_locked_frozen_refuted_D8 : fixed_D8 = false -> ~ C05_locked_frozen_full_statement.
-Proof. exact locked_frozen_refuted_D8. Qed.
-Print Assumptions C05_locked_frozen_refuted_D8.
-
-(* ---- member_cannot_unlock ------------------------------------------------------------------------------------------------
-   n is a child of a live node q whose flag is True and which did not become locked through _memmap_: unlock_ on n raises,
-   the structure is untouched, no object dies, and every flag that was True is True again afterwards *)
+(* ---- member_cannot_unlock (full statement) -----------------------------------------------------------------------------------
+   n is a child of a live node q whose flag is True: unlock_ on n raises, the structure is untouched, no object dies, and every
+   flag that was True is True again afterwards *)
 Theorem C05_member_cannot_unlock : forall fuel s q n s' out,
   Inv s -> child (hp s) q n -> flag_true (hp s) q = true -> live s q = true ->
-  (forall nd, lookup (hp s) q = Some nd -> mm nd = false) ->
   step fuel s (OUnlock n) = Some (s', out) ->
   out = Raised ELock /\ same_struct (hp s) (hp s') /\ dead s' = dead s /\
   (forall x, flag_true (hp s) x = true -> flag_true (hp s') x = true).
 Proof. exact member_cannot_unlock. Qed.
 Print Assumptions C05_member_cannot_unlock.
 
-(* the full statement (any way of having become locked) is false of the unchanged code: memmap_ builds no lock graph (D7) *)
-Definition C05_member_cannot_unlock_full_statement : Prop := forall fuel s q n s' out,
-  Inv s -> child (hp s) q n -> flag_true (hp s) q = true -> live s q = true ->
-  step fuel s (OUnlock n) = Some (s', out) -> out = Raised ELock.
-(* witness: [ONewTd; OSet 0 "n" VNewTd; OMemmap 0] then OUnlock 1 succeeds *)
-Theorem C05_member_cannot_unlock_refuted_D7 : fixed_D7 = false -> ~ C05_member_cannot_unlock_full_statement.
-Proof. exact member_cannot_unlock_refuted_D7. Qed.
-Print Assumptions C05_member_cannot_unlock_refuted_D7.
-
 (* ---- shared_node: c is below r1 and also a child of p, a live locked node outside r1's tree: unlock_ r1 raises and restores *)
 Theorem C05_shared_node : forall fuel s r1 c p s' out,
   Inv s -> Reach (hp s) r1 c -> child (hp s) p c -> ~ Reach (hp s) r1 p ->
-  flag_true (hp s) p = true -> live s p = true -> (forall nd, lookup (hp s) p = Some nd -> mm nd = false) ->
-  exists_live s r1 = true ->
+  flag_true (hp s) p = true -> live s p = true -> exists_live s r1 = true ->
   step fuel s (OUnlock r1) = Some (s', out) ->
   out = Raised ELock /\ (forall x, flag_true (hp s) x = true -> flag_true (hp s') x = true).
 Proof. exact shared_node. Qed.
@@ -105,12 +85,10 @@ Theorem C05_gc_parent : forall fuel s n s' out,
 Proof. exact gc_parent. Qed.
 Print Assumptions C05_gc_parent.
 
-(* ---- lock_ covers the tree: after lock_ r on an unlocked r (or on an r already locked through lock_), every node reachable from r
-        is flagged, and locking changes no entry *)
+(* ---- lock_ covers the tree: after lock_ r every node reachable from r is flagged (also when r is a lazy stack whose members
+        were locked first, or a stack without members), and locking changes no entry *)
 Theorem C05_lock_covers_tree : forall fuel s r s',
-  Inv s -> exists_live s r = true ->
-  (is_locked fuel (hp s) r = Some false \/ (flag_true (hp s) r = true /\ no_mm (hp s) r)) ->
-  step fuel s (OLock r) = Some (s', Done) ->
+  Inv s -> exists_live s r = true -> step fuel s (OLock r) = Some (s', Done) ->
   tree_locked (hp s') r /\ tree_unchanged (hp s) (hp s') r.
 Proof. exact lock_covers_tree. Qed.
 Print Assumptions C05_lock_covers_tree.
@@ -131,27 +109,10 @@ Theorem C05_pickle_roundtrip_relocks : forall fuel s n s' nd,
 Proof. exact pickle_relocks. Qed.
 Print Assumptions C05_pickle_roundtrip_relocks.
 
-(* ---- further refutation witnesses (defects of the unchanged code found by this check) ------------------------------------- *)
-(* D55: lock_() on a lazy stack whose members were locked one by one is a no-op (derived is_locked already True): a member can
-        then be unlocked on its own, after a lock_() call on the stack that "succeeded" *)
-Theorem C05_lazy_lock_noop_refuted_D55 :
-  option_map snd (run auto_fuel init d55_hist) = Some [Done; Done; Done; Done; Done; Done] /\
-  is_locked 9 (hp d55_state) 2 = Some true /\ child (hp d55_state) 2 0 /\
-  option_map snd (step 9 d55_state (OUnlock 0)) = Some Done /\ is_locked 9 (hp d55_after) 2 = Some false.
-Proof. exact lazy_lock_noop_refuted_D55. Qed.
-Print Assumptions C05_lazy_lock_noop_refuted_D55.
-
-(* D56: a lazy stack without members inside a locked tree can be unlocked alone and then appended to (out of [in_scope]) *)
-Theorem C05_hollow_lazy_refuted_D56 :
-  option_map snd (run auto_fuel init d56_hist) = Some [Done; Done; Done; Done; Done; Done; Done] /\
-  flag_true (hp d56_state) 0 = true /\ child (hp d56_state) 0 1 /\ children (hp d56_state) 1 = [2].
-Proof. exact hollow_lazy_refuted_D56. Qed.
-Print Assumptions C05_hollow_lazy_refuted_D56.
-
 (* ---- guard_table (finite, over the table regenerated from /repo's source on every run) -----------------------------------
    every method that writes a container's own storage carries a guard (decorator or inline test), or is a constructor /
-   documented storage conversion, or is one of the recorded defects *)
-(* row_ok, deliberate (constructors, documented conversions) and known_unguarded (D8, D51, D52, D57) are in Proofs/C05_WitnessP.v *)
+   documented storage conversion, or is the one recorded finding (D52: TensorDictParams._apply).
+   row_ok, deliberate and known_unguarded are in Proofs/C05_WitnessP.v *)
 Theorem C05_guard_table : forallb row_ok storage_writers = true.
 Proof. exact guard_table. Qed.
 Print Assumptions C05_guard_table.
@@ -159,8 +120,10 @@ Print Assumptions C05_guard_table.
 (* the writers the lock check of the model stands for are really guarded in the source *)
 Theorem C05_guard_table_core :
   forallb (fun k => existsb (fun r => let '(f, c, m, g) := r in key3_eqb (f, c, m) k && match g with GNone => false | _ => true end) storage_writers)
-          [("_td.py", "TensorDict", "_set_str"); ("_td.py", "TensorDict", "_select"); ("_td.py", "TensorDict", "del_");
-           ("_td.py", "TensorDict", "popitem"); ("_lazy.py", "LazyStackedTensorDict", "insert")] = true
+          [("_td.py", "TensorDict", "_set_str"); ("_td.py", "TensorDict", "_select"); ("_td.py", "TensorDict", "_exclude");
+           ("_td.py", "TensorDict", "del_"); ("_td.py", "TensorDict", "popitem");
+           ("_lazy.py", "LazyStackedTensorDict", "insert"); ("_lazy.py", "LazyStackedTensorDict", "_exclude");
+           ("_lazy.py", "LazyStackedTensorDict", "expand")] = true
   /\ forallb (fun k => mem3 k lock_blocked_methods)
           [("_td.py", "TensorDict", "del_"); ("_td.py", "TensorDict", "popitem"); ("_td.py", "TensorDict", "rename_key_");
            ("base.py", "TensorDictBase", "clear"); ("base.py", "TensorDictBase", "update"); ("base.py", "TensorDictBase", "create_nested");
@@ -168,49 +131,58 @@ Theorem C05_guard_table_core :
 Proof. exact guard_table_core. Qed.
 Print Assumptions C05_guard_table_core.
 
-(* the two switches are off: the refutations above are not vacuous today *)
-Example C05_switches_off : fixed_D8 = false /\ fixed_D7 = false. Proof. split; reflexivity. Qed.
+(* ---- regression witnesses of the repaired defects: the histories that refuted the full statements before the fix commits --- *)
+Example C05_regression_D8 : step 5 d8_state (OExclude 0 ["a"]) = Some (d8_state, Raised ELock).
+Proof. exact regression_D8. Qed.
+Example C05_regression_D7 : outcome_of (step 6 d7_state (OUnlock 1)) = Some (Raised ELock) /\ flag_true (hp d7_state) 1 = true.
+Proof. exact regression_D7. Qed.
+Example C05_regression_D55 : outcome_of (step 9 d55_state (OUnlock 0)) = Some (Raised ELock) /\ flag_true (hp d55_state) 2 = true.
+Proof. exact regression_D55. Qed.
+Example C05_regression_D56 :
+  outcome_of (step 9 d56_state (OUnlock 1)) = Some (Raised ELock) /\ outcome_of (step 9 d56_state (OAppend 1 2)) = Some (Raised ELock).
+Proof. exact regression_D56. Qed.
 
 (* ---- non-vacuity: concrete heaps meeting the hypotheses --------------------------------------------------------------------- *)
-(* a three-level tree with a shared node under two locked roots and a lazy stack of nested members *)
+(* a three-level tree with a shared node under two locked roots, a lazy stack of nested members and a stack without members *)
 Definition ex_hist : list op :=
   [ONewTd; ONewTd; ONewTd; ONewTd;                       (* 0 1 2 3 *)
    OSet 0 "x" (VNode 2); OSet 1 "q" (VNode 2);           (* node 2 under two parents *)
    OSet 2 "k" (VNode 3); OSet 3 "z" VLeaf;               (* 2 -> 3 -> leaf 4 *)
    ONewTd; ONewTd; OSet 5 "n" VNewTd;                    (* 5 6, 5 -> 7 *)
    ONewLazy [5; 6]; OSet 0 "L" (VNode 8);                (* lazy stack 8 = [5, 6] under root 0 *)
+   ONewLazy []; OSet 0 "E" (VNode 9);                    (* lazy stack 9 without members under root 0 *)
    OLock 0; OLock 1].
-Definition ex_state : st := match run auto_fuel init ex_hist with Some (s, _) => s | None => init end.
+Definition ex_state : st := state_after init ex_hist.
 
-Example C05_ex_runs : exists outs, run auto_fuel init ex_hist = Some (ex_state, outs) /\ Forall (fun o => o = Done) outs.
-Proof. vm_compute. eexists. split; [reflexivity|repeat constructor]. Qed.
+Example C05_ex_runs : option_map snd (run auto_fuel init ex_hist) = Some (map (fun _ => Done) ex_hist).
+Proof. vm_compute. reflexivity. Qed.
 
 Example C05_ex_inv : Inv ex_state.
 Proof.
-  destruct C05_ex_runs as [outs [R _]]. eapply C05_invariant_reachable; [|exact R].
-  unfold ex_hist. repeat constructor; cbn; discriminate.
+  assert (R : exists outs, run auto_fuel init ex_hist = Some (ex_state, outs)) by (vm_compute; eexists; reflexivity).
+  destruct R as [outs R]. eapply C05_invariant_reachable. exact R.
 Qed.
 
 (* hypotheses of locked_frozen / member_cannot_unlock / shared_node hold there, and the conclusions are observed *)
 Example C05_ex_locked_tree : flag_true (hp ex_state) 0 = true /\ live ex_state 0 = true /\ child (hp ex_state) 0 2 /\ child (hp ex_state) 1 2
-  /\ child (hp ex_state) 2 3 /\ child (hp ex_state) 0 8 /\ child (hp ex_state) 8 5 /\ child (hp ex_state) 5 7.
-Proof. vm_compute. repeat split; auto. Qed.
-
-Definition outcome_of (r : option (st * outcome)) : option outcome := option_map snd r.
+  /\ child (hp ex_state) 2 3 /\ child (hp ex_state) 0 8 /\ child (hp ex_state) 8 5 /\ child (hp ex_state) 5 7 /\ child (hp ex_state) 0 9.
+Proof. vm_compute. repeat split; auto 10. Qed.
 
 Example C05_ex_member_unlock_raises :
-  outcome_of (step 12 ex_state (OUnlock 7)) = Some (Raised ELock) /\      (* nested inside a member of a lazy stack *)
-  outcome_of (step 12 ex_state (OUnlock 8)) = Some (Raised ELock) /\      (* the lazy stack itself *)
-  outcome_of (step 12 ex_state (OUnlock 3)) = Some (Raised ELock) /\      (* below the shared node *)
-  outcome_of (step 12 ex_state (OUnlock 0)) = Some (Raised ELock) /\      (* a root sharing a node with another locked root *)
-  outcome_of (step 12 ex_state (OSet 3 "new" VLeaf)) = Some (Raised ELock) /\
-  outcome_of (step 12 ex_state (OSetInplace 3 "z")) = Some Done.
+  outcome_of (step 14 ex_state (OUnlock 7)) = Some (Raised ELock) /\      (* nested inside a member of a lazy stack *)
+  outcome_of (step 14 ex_state (OUnlock 8)) = Some (Raised ELock) /\      (* the lazy stack itself *)
+  outcome_of (step 14 ex_state (OUnlock 9)) = Some (Raised ELock) /\      (* the stack without members *)
+  outcome_of (step 14 ex_state (OUnlock 3)) = Some (Raised ELock) /\      (* below the shared node *)
+  outcome_of (step 14 ex_state (OUnlock 0)) = Some (Raised ELock) /\      (* a root sharing a node with another locked root *)
+  outcome_of (step 14 ex_state (OSet 3 "new" VLeaf)) = Some (Raised ELock) /\
+  outcome_of (step 14 ex_state (OExclude 3 ["z"])) = Some (Raised ELock) /\
+  outcome_of (step 14 ex_state (OSetInplace 3 "z")) = Some Done.
 Proof. vm_compute. repeat split. Qed.
 
 (* gc_parent / unlock_root_frees: once root 1 is collected, root 0 can be unlocked and its whole tree accepts writes *)
-Definition ex_s1 : st := match step 12 ex_state (OGc [1]) with Some (s, _) => s | None => init end.
-Definition ex_s2 : st := match step 12 ex_s1 (OUnlock 0) with Some (s, _) => s | None => init end.
+Definition ex_s1 : st := match step 14 ex_state (OGc [1]) with Some (s, _) => s | None => init end.
+Definition ex_s2 : st := match step 14 ex_s1 (OUnlock 0) with Some (s, _) => s | None => init end.
 Example C05_ex_gc_then_unlock :
-  outcome_of (step 12 ex_state (OGc [1])) = Some Done /\ outcome_of (step 12 ex_s1 (OUnlock 0)) = Some Done /\
-  outcome_of (step 12 ex_s2 (OSet 3 "new" VLeaf)) = Some Done /\ flag_true (hp ex_s2) 7 = false /\ flag_true (hp ex_state) 7 = true.
+  outcome_of (step 14 ex_state (OGc [1])) = Some Done /\ outcome_of (step 14 ex_s1 (OUnlock 0)) = Some Done /\
+  outcome_of (step 14 ex_s2 (OSet 3 "new" VLeaf)) = Some Done /\ flag_true (hp ex_s2) 7 = false /\ flag_true (hp ex_state) 7 = true.
 Proof. vm_compute. repeat split. Qed.
